@@ -24,16 +24,18 @@ theorem mem_of_lookup {β : Type} : ∀ (kvs : List (String × β)) (k : String)
       simp only [hk] at h
       simp [mem_of_lookup es k e h]
 
-theorem Sub.scalar_eq {st : StructTable} {t t' : Ty} (h : Sub st t t') (hs : Scalar st t) : t' = t := by
+theorem Sub.scalar_right {st : StructTable} {t t' : Ty} (h : Sub st t t') (hs : Scalar st t) : Scalar st t' := by
   cases h with
-  | refl => rfl
+  | refl => exact hs
   | struct _ _ ps ps' _ _ h3 => rw [hs.2.2] at h3; cases h3
+  | scalar _ _ h1 h2 _ h4 => exact ⟨h2 ▸ hs.1, h1 ▸ hs.2.1, h4⟩
 
 theorem Sub.lookup_right {st : StructTable} {t t' : Ty} (h : Sub st t t') (ps : List Param)
     (hl : st.lookup t.base = some ps) : ∃ ps', st.lookup t'.base = some ps' := by
   cases h with
   | refl => exact ⟨ps, hl⟩
   | struct _ _ _ ps' _ _ _ h4 => exact ⟨ps', h4⟩
+  | scalar _ _ _ _ h3 => rw [hl] at h3; cases h3
 
 /-! ## L1 -/
 
@@ -51,8 +53,7 @@ theorem narrow_evalRT :
     | inl h => subst h; simp [evalRT, narrow_null hF, HasTyR, LitOk]
     | inr h =>
       obtain ⟨⟨s, rfl⟩, hsc⟩ := h
-      have := hs.scalar_eq hsc
-      subst this
+      have hsc := hs.scalar_right hsc
       obtain ⟨b, m, a⟩ := t'
       obtain ⟨ha, hm, hl⟩ := hsc
       simp only at ha hm hl
